@@ -28,7 +28,7 @@ class PVDReader:
 
         def get(self) -> protocols.FieldData:
             filename = self._pieces[self._step_idx]
-            if not exists(filename) and not isabs(filename) and exists(join(self._dirname, filename)):
+            if not isabs(filename) and exists(join(self._dirname, filename)):
                 filename = join(self._dirname, filename)
 
             ext = splitext(filename)[1]
